@@ -256,4 +256,311 @@ theorem gc_keeps_reachable (s s' : Storage) (h : gc s = (s', .ok ())) (root n : 
 theorem roots_are_spec (s : Storage) :
     gcRoots s = s.topCalls.foldl (lruPut s.cap) s.lru ++ s.retained.map (·.1) := rfl
 
+/-! ## the LRU and the ghost field `pushes` along a history -/
+
+/-- `s'` differs from `s`, as far as the LRU bookkeeping goes, by the same ids appended to
+`topCalls` and to the ghost `pushes`. -/
+def TP (s s' : Storage) : Prop :=
+  s'.lru = s.lru ∧ s'.cap = s.cap ∧
+    ∃ ext, s'.topCalls = s.topCalls ++ ext ∧ s'.pushes = s.pushes ++ ext
+
+theorem TP.refl (s : Storage) : TP s s := ⟨rfl, rfl, [], by simp, by simp⟩
+
+theorem TP.trans {a b c : Storage} (h1 : TP a b) (h2 : TP b c) : TP a c := by
+  obtain ⟨l1, c1, e1, t1, p1⟩ := h1
+  obtain ⟨l2, c2, e2, t2, p2⟩ := h2
+  exact ⟨l2.trans l1, c2.trans c1, e1 ++ e2, by rw [t2, t1, List.append_assoc],
+    by rw [p2, p1, List.append_assoc]⟩
+
+theorem TP.of_eq {s s' : Storage} (h1 : s'.lru = s.lru) (h2 : s'.cap = s.cap)
+    (h3 : s'.topCalls = s.topCalls) (h4 : s'.pushes = s.pushes) : TP s s' :=
+  ⟨h1, h2, [], by simp [h3], by simp [h4]⟩
+
+theorem regDep_TP (s : Storage) (n : DepNode) (tu : Nat) : TP s (regDep s n tu) := by
+  unfold regDep
+  split <;> exact TP.of_eq rfl rfl rfl rfl
+
+theorem setTv_TP (s : Storage) (id : NodeId) (e : Nat) : TP s (setTv s id e) := by
+  unfold setTv
+  split <;> exact TP.of_eq rfl rfl rfl rfl
+
+theorem evalE_TP (call : Storage → NodeId → Storage × Res Nat) (P : Prog)
+    (hc : ∀ s id, TP s (call s id).1) (e : Expr) (a : Nat) (s : Storage) :
+    TP s (evalE call P e a s).1 := by
+  induction e generalizing a s with
+  | lit n => exact TP.refl _
+  | param => exact TP.refl _
+  | src k ih =>
+    simp only [evalE]
+    split
+    · rename_i s1 kv heq
+      have h1 : TP s s1 := by have := ih a s; rw [heq] at this; exact this
+      split
+      · exact h1.trans (regDep_TP ..)
+      · exact h1
+    · exact ih a s
+  | sing i =>
+    simp only [evalE]
+    split
+    · exact regDep_TP ..
+    · exact TP.refl _
+  | trk m =>
+    simp only [evalE]
+    split
+    · exact regDep_TP ..
+    · exact TP.refl _
+  | call f e ih =>
+    simp only [evalE]
+    split
+    · rename_i s1 av heq
+      have h1 : TP s s1 := by have := ih a s; rw [heq] at this; exact this
+      exact h1.trans (hc ..)
+    · exact ih a s
+  | add x y ihx ihy =>
+    simp only [evalE]
+    split
+    · rename_i s1 xv heq
+      have h1 : TP s s1 := by have := ihx a s; rw [heq] at this; exact this
+      split
+      · rename_i s2 yv heq2
+        have h2 : TP s1 s2 := by have := ihy a s1; rw [heq2] at this; exact this
+        exact h1.trans h2
+      · exact h1.trans (ihy a s1)
+    · exact ihx a s
+  | eq x y ihx ihy =>
+    simp only [evalE]
+    split
+    · rename_i s1 xv heq
+      have h1 : TP s s1 := by have := ihx a s; rw [heq] at this; exact this
+      split
+      · rename_i s2 yv heq2
+        have h2 : TP s1 s2 := by have := ihy a s1; rw [heq2] at this; exact this
+        exact h1.trans h2
+      · exact h1.trans (ihy a s1)
+    · exact ihx a s
+  | ite c t e ihc iht ihe =>
+    simp only [evalE]
+    split
+    · rename_i s1 cv heq
+      have h1 : TP s s1 := by have := ihc a s; rw [heq] at this; exact this
+      split
+      · exact h1.trans (iht a s1)
+      · exact h1.trans (ihe a s1)
+    · exact ihc a s
+  | half x ih =>
+    simp only [evalE]
+    split
+    · rename_i s1 xv heq
+      have h1 : TP s s1 := by have := ih a s; rw [heq] at this; exact this
+      exact h1
+    · exact ih a s
+
+theorem anyDep_TP (chk : Storage → Dep → Storage × Res Bool)
+    (hc : ∀ s d, TP s (chk s d).1) (ds : List Dep) (s : Storage) :
+    TP s (anyDep chk ds s).1 := by
+  induction ds generalizing s with
+  | nil => exact TP.refl _
+  | cons d ds ih =>
+    simp only [anyDep]
+    split
+    · exact ih s
+    · have h1 := hc s d
+      split
+      · rename_i s1 heq; rw [heq] at h1; exact h1
+      · rename_i s1 heq; rw [heq] at h1; exact h1.trans (ih s1)
+      · rename_i s1 p heq; rw [heq] at h1; exact h1
+
+theorem depChanged_TP (ex : Storage → NodeId → Storage × Res Bool)
+    (hc : ∀ s id, TP s (ex s id).1) (s : Storage) (d : Dep) :
+    TP s (depChanged ex s d).1 := by
+  unfold depChanged
+  split
+  · split <;> exact TP.refl _
+  · split
+    · exact TP.refl _
+    · split
+      · exact TP.refl _
+      · split
+        · exact TP.refl _
+        · exact hc ..
+
+theorem callVia_TP (ex : Storage → NodeId → Storage × Res Bool)
+    (hc : ∀ s id, TP s (ex s id).1) (s : Storage) (id : NodeId) :
+    TP s (callVia ex s id).1 := by
+  unfold callVia
+  have h1 := hc s id
+  split
+  · rename_i s1 _ heq
+    rw [heq] at h1
+    split <;> exact h1
+  · rename_i s1 p heq
+    rw [heq] at h1
+    exact h1
+
+theorem invoke_TP (call : Storage → NodeId → Storage × Res Nat) (P : Prog)
+    (hc : ∀ s id, TP s (call s id).1) (s : Storage) (id : NodeId) :
+    TP s (invoke call P s id).1 := by
+  unfold invoke
+  split
+  · exact TP.refl _
+  · simp only []
+    have h0 : TP s { s with stack := ⟨id, [], 1⟩ :: s.stack, runs := bump s.runs id.fn, log := id :: s.log } :=
+      TP.of_eq rfl rfl rfl rfl
+    have h1 := evalE_TP call P hc (fnOf P id.fn).body id.arg
+      { s with stack := ⟨id, [], 1⟩ :: s.stack, runs := bump s.runs id.fn, log := id :: s.log }
+    split
+    · rename_i s1 v heq
+      rw [heq] at h1
+      have h2 := h0.trans h1
+      split
+      · exact h2.trans (TP.of_eq rfl rfl rfl rfl)
+      · exact h2
+    · rename_i s1 p heq
+      rw [heq] at h1
+      exact (h0.trans h1).trans (TP.of_eq rfl rfl rfl rfl)
+
+theorem exec_TP (fuel : Nat) (P : Prog) (s : Storage) (id : NodeId) :
+    TP s (exec fuel P s id).1 := by
+  induction fuel generalizing s id with
+  | zero => exact TP.refl _
+  | succ fuel ih =>
+    have hcall : ∀ s id, TP s (callVia (exec fuel P) s id).1 := callVia_TP _ ih
+    have hchk : ∀ s d, TP s (depChanged (exec fuel P) s d).1 := depChanged_TP _ ih
+    have h0 : TP s (if s.stack.isEmpty then
+        { s with topCalls := s.topCalls ++ [id], pushes := s.pushes ++ [id] } else s) := by
+      split
+      · exact ⟨rfl, rfl, [id], rfl, rfl⟩
+      · exact TP.refl _
+    simp only [exec]
+    generalize (if s.stack.isEmpty then
+        { s with topCalls := s.topCalls ++ [id], pushes := s.pushes ++ [id] } else s) = s0 at h0
+    refine h0.trans ?_
+    have hupd : ∀ (s : Storage) d n tu, TP s (regDep { s with derived := d } n tu) := fun s d n tu =>
+      (TP.of_eq (s' := { s with derived := d }) rfl rfl rfl rfl).trans (regDep_TP ..)
+    split
+    · rename_i rev hrev
+      split
+      · exact regDep_TP ..
+      · have h1 := (setTv_TP s0 id s0.epoch).trans
+          (anyDep_TP _ hchk rev.deps (setTv s0 id s0.epoch))
+        split
+        · rename_i s1 p heq; rw [heq] at h1; exact h1
+        · rename_i s1 heq; rw [heq] at h1; exact h1.trans (regDep_TP ..)
+        · rename_i s1 heq; rw [heq] at h1
+          have h2 := invoke_TP _ P hcall s1 id
+          split
+          · rename_i s2 p heq2; rw [heq2] at h2; exact h1.trans h2
+          · rename_i s2 v fr heq2; rw [heq2] at h2
+            have h3 := h1.trans h2
+            split
+            · exact h3
+            · split
+              · exact h3.trans (hupd ..)
+              · exact h3.trans (hupd ..)
+    · have h2 := invoke_TP _ P hcall s0 id
+      split
+      · rename_i s2 p heq2; rw [heq2] at h2; exact h2
+      · rename_i s2 v fr heq2; rw [heq2] at h2
+        exact h2.trans (hupd ..)
+
+theorem setSource_TP (s : Storage) (k : Key) (v : Nat) : TP s (setSource s k v) := by
+  unfold setSource
+  split
+  · split
+    · exact TP.of_eq rfl rfl rfl rfl
+    · exact TP.refl _
+  · exact TP.of_eq rfl rfl rfl rfl
+
+theorem removeSource_TP (s : Storage) (k : Key) : TP s (removeSource s k) := by
+  unfold removeSource
+  split
+  · exact TP.of_eq rfl rfl rfl rfl
+  · exact TP.refl _
+
+theorem touchCounter_TP (s : Storage) (m : Nat) : TP s (touchCounter s m) := by
+  unfold touchCounter
+  split <;> exact setSource_TP ..
+
+/-- the state invariant behind `C03_lru_invariant` -/
+def LruInv (cap : Nat) (s : Storage) : Prop :=
+  gcLru s = lastDistinct cap s.pushes ∧ s.cap = cap
+
+theorem LruInv.of_TP {cap : Nat} (hcap : 1 ≤ cap) {s s' : Storage} (hi : LruInv cap s)
+    (h : TP s s') : LruInv cap s' := by
+  obtain ⟨hl, hc, ext, ht, hp⟩ := h
+  obtain ⟨h1, h2⟩ := hi
+  refine ⟨?_, hc.trans h2⟩
+  unfold gcLru at h1 ⊢
+  rw [h2] at h1
+  rw [ht, hp, hl, hc, List.foldl_append, h2, h1, foldl_lruPut_lastDistinct cap hcap]
+
+theorem gc_LruInv {cap : Nat} {s : Storage} (hi : LruInv cap s) : LruInv cap (gc s).1 := by
+  obtain ⟨h1, h2⟩ := hi
+  simp only [gc]
+  split
+  · exact ⟨h1, h2⟩
+  · exact ⟨h1, h2⟩
+
+theorem step_LruInv (fuel : Nat) (P : Prog) {cap : Nat} (hcap : 1 ≤ cap) (s : Storage) (op : Op)
+    (hi : LruInv cap s) : LruInv cap (step fuel P s op).1 := by
+  unfold step
+  split
+  · exact hi
+  · cases op with
+    | set k v => exact hi.of_TP hcap (setSource_TP ..)
+    | rem k => exact hi.of_TP hcap (removeSource_TP ..)
+    | sset i v => exact hi.of_TP hcap (setSource_TP ..)
+    | srem i => exact hi.of_TP hcap (removeSource_TP ..)
+    | tins m k =>
+      exact hi.of_TP hcap ((touchCounter_TP s m).trans (TP.of_eq rfl rfl rfl rfl))
+    | trem m k =>
+      exact hi.of_TP hcap ((touchCounter_TP s m).trans (TP.of_eq rfl rfl rfl rfl))
+    | call f a =>
+      have h1 := callVia_TP _ (exec_TP fuel P) s (nodeOf P f a)
+      simp only []
+      split
+      · rename_i s1 v heq; rw [heq] at h1
+        exact hi.of_TP hcap (h1.trans (TP.of_eq rfl rfl rfl rfl))
+      · rename_i s1 p heq; rw [heq] at h1
+        exact hi.of_TP hcap (h1.trans (TP.of_eq rfl rfl rfl rfl))
+    | look f a =>
+      simp only []
+      split
+      · split <;> exact hi
+      · exact hi
+    | retain f a =>
+      simp only []
+      split
+      · exact hi.of_TP hcap (TP.of_eq rfl rfl rfl rfl)
+      · exact hi
+    | unretain f a =>
+      simp only []
+      split
+      · exact hi.of_TP hcap (TP.of_eq rfl rfl rfl rfl)
+      · exact hi
+    | nevergc f a =>
+      simp only []
+      split
+      · exact hi.of_TP hcap (TP.of_eq rfl rfl rfl rfl)
+      · exact hi
+    | gc =>
+      have h1 := gc_LruInv hi
+      simp only []
+      split
+      · rename_i s1 _ heq; rw [heq] at h1; exact h1
+      · rename_i s1 _ heq; rw [heq] at h1; exact h1
+
+theorem runS_LruInv (fuel : Nat) (P : Prog) {cap : Nat} (hcap : 1 ≤ cap) (s : Storage) (h : List Op)
+    (hi : LruInv cap s) : LruInv cap (runS fuel P s h) := by
+  induction h generalizing s with
+  | nil => exact hi
+  | cons op ops ih =>
+    have := ih (step fuel P s op).1 (step_LruInv fuel P hcap s op hi)
+    simpa [runS, run] using this
+
+theorem lru_invariant (fuel : Nat) (P : Prog) (cap : Nat) (hcap : 1 ≤ cap) (h : List Op) :
+    gcLru (after fuel cap P h) = lastDistinct cap (after fuel cap P h).pushes ∧
+      (after fuel cap P h).cap = cap :=
+  runS_LruInv fuel P hcap (initS cap P) h ⟨by simp [gcLru, initS, Storage.init, lastDistinct, recentDistinct], rfl⟩
+
 end IsoVerif.Pico
